@@ -118,6 +118,8 @@ func (p *C08) Gen(seed uint64, i int, tier string) *scen.Scenario {
 		sc.Setup = append(sc.Setup, scen.Op{Op: "new_root", R: c02NestedLogger, Name: "nested", Named: true, Opts: []scen.Op{{Kind: "writer", W: c02NestedWriter}, {Kind: "errwriter", W: c02NestedWriter}, {Kind: "level", Lvl: model.Always},
 			{Kind: scen.Pick(r, []string{"json", "color"}), B: []bool{r.Bool()}}}})
 	}
+	ctxEp := scen.Mix(seed, 1009, uint64(i))%3 == 0
+	ctxKeys := map[int][]scen.CtxKey{}
 	for id := 1; id <= nLoggers; id++ {
 		var op scen.Op
 		if id == 1 || r.Chance(1, 3) {
@@ -149,6 +151,16 @@ func (p *C08) Gen(seed uint64, i int, tier string) *scen.Scenario {
 			op.Opts = append(op.Opts, o)
 		}
 		sc.Setup = append(sc.Setup, op)
+		if ctxEp {
+			// the logger prints the values its calls' contexts hold for these keys (unique per call: a value that turns
+			// up in another call's record is seen)
+			var ks []scen.CtxKey
+			for n := 1 + int(scen.Mix(seed, 1010, uint64(i), uint64(id))%2); n > 0; n-- {
+				ks = append(ks, scen.CtxKey{Kind: []string{"s", "st"}[(id+n)%2], Name: "c" + g.key()})
+			}
+			ctxKeys[id] = ks
+			sc.Setup = append(sc.Setup, scen.Op{Op: "set", L: id, Kind: "ctxkeys", Keys: ks})
+		}
 		// records issued before the concurrent phase, while the tree is still growing: a logger that
 		// has already printed gets children afterwards (anything a logger keeps from its first record
 		// is then there when its descendants are made)
@@ -241,6 +253,14 @@ func (p *C08) Gen(seed uint64, i int, tier string) *scen.Scenario {
 			}
 			if op.Entry != name && r.Chance(1, 5) {
 				op.Ctx = &scen.CtxSpec{}
+			}
+			if op.Entry != name && len(ctxKeys[op.L]) > 0 {
+				op.Ctx = &scen.CtxSpec{}
+				for q, ck := range ctxKeys[op.L] {
+					if (tk+q)%4 != 0 {
+						op.Ctx.Vals = append(op.Ctx.Vals, scen.CtxVal{Key: ck, V: scen.Arg{K: "i", I: g.nv(), Y: true}})
+					}
+				}
 			}
 			task.Ops = append(task.Ops, op)
 		}
@@ -378,10 +398,11 @@ func (p *C08) WellFormed(sc *scen.Scenario) bool {
 
 // c08Logger is what the oracle needs to know about a logger.
 type c08Logger struct {
-	parent int
-	attrs  []mAttr
-	format int
-	ws     *model.Writers
+	ctxKeys []scen.CtxKey
+	parent  int
+	attrs   []mAttr
+	format  int
+	ws      *model.Writers
 }
 
 func (p *C08) Check(sc *scen.Scenario, run *orch.Run, env *orch.Env) []orch.Violation {
@@ -440,6 +461,10 @@ func (p *C08) Check(sc *scen.Scenario, run *orch.Run, env *orch.Env) []orch.Viol
 		case "share":
 			for _, a := range op.Args {
 				shared[a.Ref] = a
+			}
+		case "set":
+			if l := ls[op.L]; l != nil && op.Kind == "ctxkeys" {
+				l.ctxKeys = append(l.ctxKeys, op.Keys...)
 			}
 		case "new_root", "new_child":
 			l := &c08Logger{parent: -1, format: fmtColor, ws: wsAll[op.R]}
@@ -549,8 +574,18 @@ func (p *C08) Check(sc *scen.Scenario, run *orch.Run, env *orch.Env) []orch.Viol
 		if l == nil {
 			continue
 		}
-		// expected attribute pairs of exactly this call
+		// expected attribute pairs of exactly this call: the values its own context holds for the logger's keys, ...
 		var list []mAttr
+		if c.op.Ctx != nil && !c.op.Ctx.Nil {
+			for _, ck := range l.ctxKeys {
+				for q := len(c.op.Ctx.Vals) - 1; q >= 0; q-- {
+					if cv := c.op.Ctx.Vals[q]; cv.Key == ck {
+						list = append(list, mAttr{Key: ck.Name, Val: cv.V.I})
+						break
+					}
+				}
+			}
+		}
 		if inherit {
 			var chain []int
 			for a := l.parent; a >= 0 && ls[a] != nil; a = ls[a].parent {
